@@ -917,7 +917,7 @@ def oracle(case, outcome, r, sb, args, probe=None):
     # (4) tokenise / parse failure  =>  UNVALIDATED
     ckey = case.get("content")
     parsed_is_content = not (tool == "write" and case.get("mode", "content") in ("normalize", "changes"))
-    if isinstance(ckey, str) and ckey in UNPARSEABLE and parsed_is_content and case.get("policy") != "salvage" and vs != "UNVALIDATED":
+    if isinstance(ckey, str) and ckey in UNPARSEABLE and parsed_is_content and vs != "UNVALIDATED":
         fails.append(("parse-failure", f"octave_{tool}: content {ckey!r} does not tokenise/parse, yet validation_status={vs}"))
     # (5) INVALID  =>  at least one validation error + schema name/version (+ STRICT/STANDARD)
     if vs == "INVALID":
@@ -1042,7 +1042,27 @@ def holographic_example_needs_escape(case, why_class) -> bool:
                                    for v in _walk_values(doc))
 
 
-KNOWN_CLASSES = {"negative_infinity_literal": negative_infinity_literal,
+def salvage_policy_parse_failure(case, why_class) -> bool:
+    """F100: octave_write(lenient=true, parse_error_policy="salvage") on text that does not tokenise/parse: the tool
+    fabricates a document around the text (or drops it) and validates *that*, so the response says VALIDATED / INVALID
+    although the input never parsed."""
+    if why_class != "parse-failure" or case.get("tool") != "write" or case.get("policy") != "salvage" or not case.get("lenient"):
+        return False
+    if case.get("mode", "content") != "content":
+        return False
+    text = content_text(case.get("content"))
+    if not isinstance(text, str):
+        return False
+    from octave_mcp.core.parser import parse_with_warnings
+    try:
+        parse_with_warnings(text)
+        return False
+    except Exception:  # noqa: BLE001
+        return True
+
+
+KNOWN_CLASSES = {"salvage_policy_parse_failure": salvage_policy_parse_failure,
+                 "negative_infinity_literal": negative_infinity_literal,
                  "holographic_example_needs_escape": holographic_example_needs_escape}
 
 
@@ -1186,6 +1206,19 @@ INJECTIONS = [
     ("g_gbnfMeta", "octave_mcp.mcp.compile_grammar", "compile_gbnf_from_meta", 0, {**G0, "content": "contract"}),
     ("g_extract", "octave_mcp.mcp.compile_grammar", "extract_schema_from_document", 0, G0),
     ("g_compile", "octave_mcp.mcp.compile_grammar", "GBNFCompiler.compile_schema", 0, G0),
+    # stages reached through other modules / module objects (patched only while the tool runs)
+    ("v_debug", "octave_mcp.core.constraints", "ConstraintChain.compile", 0, V0),
+    ("w_debug", "octave_mcp.core.constraints", "ConstraintChain.compile", 0, W0),
+    ("v_routing", "octave_mcp.core.routing", "RoutingLog.to_dict", 0, V0),
+    ("e_jsonDumps", "octave_mcp.mcp.eject", "json.dumps", 0, E0),
+    ("e_yamlDump", "octave_mcp.mcp.eject", "yaml.dump", 0, {**E0, "format": "yaml"}),
+    ("w_detect", "octave_mcp.mcp.write", "re.search", 0, W0),
+    ("w_salvage", "octave_mcp.mcp.write", "WriteTool._localized_salvage", 0, {**W0, "content": "bad_bracket", "policy": "salvage"}),
+    # narrowly guarded stages: their own error type is absorbed, anything else escapes
+    ("w_baselineMetrics", "octave_mcp.mcp.write", "parse", 0, {**W_STRICT, "target": "existing"}),
+    ("w_baselineMetrics", "octave_mcp.mcp.write", "parse", 0, {**W_STRICT, "target": "existing"}, "narrow"),
+    ("w_parseInherit", "octave_mcp.mcp.write", "parse", 2, {**W_STRICT, "target": "existing"}),
+    ("w_parseInherit", "octave_mcp.mcp.write", "parse", 2, {**W_STRICT, "target": "existing"}, "narrow"),
 ]
 
 
@@ -1193,7 +1226,8 @@ def run_injection(item):
     """Make one stage raise inside the real tool and report whether the tool returned an envelope; the request
     for the model is the one of the un-faulted base case plus raises = {stage: other}."""
     import importlib
-    stage, modname, attr, nth, case = item
+    stage, modname, attr, nth, case = item[:5]
+    kind = item[5] if len(item) > 5 else "other"
     sb = SB.worker_sandbox()
     sb.enter(case.get("home", "home"))
     mod = importlib.import_module(modname)
@@ -1208,12 +1242,17 @@ def run_injection(item):
     # 2) the same call with the stage made to raise (the fault is active only while the tool itself runs, never
     #    while the harness probes the stages)
     global _ACTIVE_INJECTION
-    _ACTIVE_INJECTION = (holder, parts[-1], _raiser_after(nth, _Boom(f"injected fault in {stage}"), real), real)
+    if kind == "narrow":
+        from octave_mcp.core.lexer import LexerError
+        exc = LexerError(f"injected fault in {stage}", 1, 1)
+    else:
+        exc = _Boom(f"injected fault in {stage}")
+    _ACTIVE_INJECTION = (holder, parts[-1], _raiser_after(nth, exc, real), real)
     try:
         outcome, r, _req2, args = runner(case, sb)
     finally:
         _ACTIVE_INJECTION = None
     req = json.loads(json.dumps(req))
-    req["o"].setdefault("raises", {})[stage] = "other"
+    req["o"].setdefault("raises", {})[stage] = kind
     impl = view(r, case["tool"]) if outcome == "ok" and isinstance(r, dict) else {"raise": str(r)}
-    return {"stage": stage, "impl": impl, "req": req, "case": case}
+    return {"stage": stage + ("" if kind == "other" else ":" + kind), "impl": impl, "req": req, "case": case}
